@@ -211,6 +211,8 @@ def evaluate(chk, v, suffixes):
                 chk.ob("R1", o["key"], o["status"], where=o["where"], detail=o["detail"], variant=vn, data=o.get("data"))
             chk.vcount(vn, "R1.scratch_obligations", len(got))
             ps, _ = summ.pieces(v, f, hooks=NOINLINE)
+            # a modulus switch expanded by hand (interval hoisted out of the loop) is the call it stands for
+            ps = summ.fold_inline_calls(v, ps, ("modSwitchFromTorus32",))
             loc = {p["name"]: p for p in ps if p["kind"] == "local"}
             stores = [p for p in ps if p["kind"] == "store"]
             cs = calls_of(ps)
@@ -240,9 +242,16 @@ def evaluate(chk, v, suffixes):
                         ok="barb = switch(x->b, 2N); bara[i] = switch(x->a[i], 2N), i in [0,n); n rotations requested",
                         bad="; ".join(problems), variant=vn)
             tv = [p for p in stores if p["loops"] and p["val"] == sym.sym(mu)]
-            ok6 = len(tv) == 1 and (tv[0]["loops"][0]["lo"], tv[0]["loops"][0]["cmp"], tv[0]["loops"][0]["hi"]) == (ZERO, "<", N) and \
-                tv[0]["lv"][0] == "idx" and tv[0]["lv"][2] == tv[0]["loops"][0]["var"] and sym.show(a[1]) in sym.show(tv[0]["lv"][1])
+            from sa import coverage
+            ok6 = bool(tv) and all(len(p["loops"]) == 1 and p["lv"][0] == "idx" and p["lv"][1] == tv[0]["lv"][1] and p["guards"] == tv[0]["guards"] for p in tv) \
+                and sym.show(a[1]) in sym.show(tv[0]["lv"][1])
             why6 = "statements: %s" % [summ.show_piece(p)[:100] for p in tv]
+            if ok6:
+                st6, det6 = coverage.cover_1d([(p["loops"][0], p["lv"][2], 1) for p in tv], N)
+                if st6 == "unknown":
+                    chk.broken("%s: test vector fill: %s" % (f.name, det6))
+                if st6 == "refuted":
+                    ok6, why6 = False, "the fill does not reach every coefficient: %s (n = N)" % det6
             if ok6 and tv[0]["guards"] and tv[0]["guards"] != br[0]["guards"]:
                 # (a fill under exactly the conditions of its consumer, e.g. after the early return of a shortcut path, is complete)
                 ok6 = False
